@@ -100,6 +100,9 @@ double sym_model_value(double a)
 {
     return a;
 }
+void sym_check_deriv(double, const char*, double, const char*) {}
+int sym_uf_count(void) { return 0; }
+int sym_concrete(void) { return 1; }
 double sym_deriv(double, const char*)
 {
     return std::nan("");
